@@ -16,6 +16,11 @@ Inputs(op) == CASE op \in {"runA", "copyA", "pickleA", "saveloadA", "freshA"} ->
                 [] op = "runAprog" -> {"A.parset", "A.progset", "A.instructions", "A.framework", "A.data", "A.settings"}
                 [] op = "runB" -> {"B.parset", "B.framework", "B.data", "B.settings"}
                 [] op = "runBprog" -> {"B.parset", "B.progset", "B.instructions", "B.framework", "B.data", "B.settings"}
+                \* a parameter set that carries a saved initialization loaded from a calibration file
+                [] op = "runAinit" -> {"A.parset_init", "A.framework", "A.data", "A.settings"}
+                \* building a generated project (framework, data, a program set assembled through the API) from scratch and running it: no inputs,
+                \* so every build in one process gives the same result (no state shared between the objects of different builds)
+                [] op = "buildG" -> {}
 Objects == UNION {Inputs(op) : op \in Ops}
 \* operations that must give the same result as the plain run of project A
 Canonical(op) == IF op \in {"copyA", "pickleA", "saveloadA", "freshA"} THEN "runA" ELSE op
